@@ -91,13 +91,14 @@ def render_attr_str(s):
 class Skeleton:
     """template: source text with {leafname} placeholders; leaves: [Leaf]; opts: dict rust_option_name -> bool | 'sym' | value"""
 
-    def __init__(self, sid, template, leaves=(), opts=None, tsx=False, patterns=None, pragma=None, meta=None):
+    def __init__(self, sid, template, leaves=(), opts=None, tsx=False, patterns=None, pragma=None, meta=None, variants=None):
         self.sid = sid; self.template = template; self.leaves = [l.make(i) for i, l in enumerate(leaves)]
         self.opts = dict(opts or {}); self.tsx = tsx
         self.patterns = patterns            # None | [] | ['opaque']
         self.pragma = pragma
         self.meta = meta or {}
         self.optvars = {}
+        self.variants = variants or []      # extra runs of the same input with some options overridden (relational oracles)
 
     def sample_source(self):
         d = {l.name: l.sample for l in self.leaves}
@@ -263,7 +264,18 @@ def run_skeleton(it, e3, skel, oracle, stats=None, deadline=None, max_paths=2000
         inp = astio.read_program(r0['pre'])
         symbolise(inp, skel.leaves)
         world.run_module(it, ctx, pre, opts, r0, comments)
-        env = Env(inp, pre, ctx.diags, opts, ctx, skel, {'comments': comments, 'resp': r0})
+        posts = [pre]; diags_all = [list(ctx.diags)]
+        for ov in skel.variants:
+            o2 = dict(opts); o2.update(ov)
+            p2 = astio.read_program(r0['pre'])
+            symbolise(p2, skel.leaves)
+            ctx.diags = []
+            for attr in ('regex_calls',):
+                pass
+            world.run_module(it, ctx, p2, o2, r0, comments)
+            posts.append(p2); diags_all.append(list(ctx.diags))
+        ctx.diags = diags_all[0]
+        env = Env(inp, pre, ctx.diags, opts, ctx, skel, {'comments': comments, 'resp': r0, 'posts': posts, 'diags_all': diags_all, 'variants': skel.variants})
         ctx.env = env
         return oracle(env)
 
@@ -292,7 +304,7 @@ def run_skeleton(it, e3, skel, oracle, stats=None, deadline=None, max_paths=2000
             o = skel.concrete_options(r.model, r.ctx)
             info = r.obligation.info if r.obligation is not None else None
             res['violations'].append({'skeleton': skel.sid, 'kind': r.kind, 'obligation': r.detail, 'source': src, 'options': o, 'tsx': skel.tsx,
-                                      'info': _plain(r.model, info)})
+                                      'info': _plain(r.model, info), 'variants': [{world.JSON_NAMES.get(k, k): v for k, v in ov.items()} for ov in skel.variants]})
         elif r.kind == 'budget':
             res['inconclusive'].append('%s: %s' % (skel.sid, r.detail))
         else:
@@ -363,7 +375,16 @@ def native_check(e3, oracle, violation, skel_like=None):
     cctx = ConcreteCtx()
     cctx.diags = list(r.get('diags', []))
     opts = {k: violation['options'].get(j, world.OPTION_DEFAULTS[k]) for k, j in world.JSON_NAMES.items()}
-    env = Env(pre, post, cctx.diags, opts, cctx, skel_like, {'resp': r, 'comments': world.comments_map(r), 'code': r.get('code'), 'reparse_ok': r.get('reparse_ok')})
+    posts = [post]; diags_all = [list(cctx.diags)]; codes = [r.get('code')]
+    for ov in violation.get('variants') or []:
+        o2 = dict(violation['options']); o2.update(ov)
+        r2 = e3.run(violation['source'], o2, violation.get('tsx', False))
+        if r2.get('crash') or 'panic' in r2:
+            return True, {'native': 'panic', 'message': r2.get('panic', 'process died'), 'variant': ov}
+        posts.append(astio.read_program(r2['post'])); diags_all.append(list(r2.get('diags', []))); codes.append(r2.get('code'))
+    env = Env(pre, post, cctx.diags, opts, cctx, skel_like, {'resp': r, 'comments': world.comments_map(r), 'code': r.get('code'), 'reparse_ok': r.get('reparse_ok'),
+                                                             'posts': posts, 'diags_all': diags_all, 'codes': codes,
+                                                             'variants': [{world.RUST.get(k, k): v for k, v in ov.items()} for ov in (violation.get('variants') or [])]})
     try:
         obs = oracle(env)
     except Exception as e:
